@@ -704,6 +704,11 @@ func generate(repo, out string) error {
 		return err
 	}
 
+	// 4w. the gate keeper of user functions, Context.SetFunc with setFunc / GetFunc, as a table (sfast.go)
+	if err := writeIfChanged(filepath.Join(out, "SetFunc.lean"), []byte(setFuncLean(repo))); err != nil {
+		return err
+	}
+
 	// 4m. the three writers of qframe.go (ToJSON, ToCSV, String) as terms of QF.JS / QF.CS / QF.PS (wast.go)
 	if err := writeIfChanged(filepath.Join(out, "Writers.lean"), []byte(writersLean(repo, root, strs))); err != nil {
 		return err
